@@ -315,7 +315,9 @@ func runC12(r *Run) {
 	}
 	// the domain_set plugin: sets assembled from own rules, files and other sets (c12sets.go)
 	r.sets12()
-	r.Finish("rule sets of 1..9 rules over the four types (prefixed or relying on the set's default type), half of the domain/full patterns derived from earlier ones (duplicate, deeper with a value-less gap, parent, string-suffix-but-not-label-suffix), labels from a word list, service labels with '_' and random labels over every byte class (letters of both cases, digits, '-', '_', the bytes around the letter ranges, other punctuation, DEL), spelled all upper case / one letter / every letter at random (0x20 style), with and without trailing dot, loaded by Add or by the text loader with comments/blank lines; names derived from the rules (exact, sub-label, `not`+name, label glued on, parent, sibling) in random spelling; a sweep over every ASCII byte c placed behind and in front of upper-case letters in domain/full/keyword rules and names, together with the twin name holding c^0x20 (same name for a letter, a different one otherwise); NormalizeDomain and the scanner on fixed shapes, every ASCII byte between letters and random ASCII strings against the model; configurations of 3..12 data_provider/domain_set plugins built by the real NewDomainSet in configuration order (own expressions, a file, references to earlier sets in any order, the same set named twice, now and then a set whose own rules are only rules for the root in one of its spellings (domain:. / . / domain: / the empty expression), alone, in a file or referenced by other sets; half of them several sets derived from a common base of 1..7 members, mostly made of other sets only, the base mostly named first), every set asked for names derived from all rules right after it was built and after all others were built, the answer compared with 'some rule of the set or of a set it references, directly or through other sets, describes the name' and with the model's set construction; expected answers from a trie-free reference whose normalisation changes the 26 upper-case letters only; non-trivial = some name matched and at least 2 rules")
+	// rules with values: tables of the hosts plugin, and lists larger than the text loader's read buffer (c12hosts.go)
+	r.hosts12()
+	r.Finish("rule sets of 1..9 rules over the four types (prefixed or relying on the set's default type), half of the domain/full patterns derived from earlier ones (duplicate, deeper with a value-less gap, parent, string-suffix-but-not-label-suffix), labels from a word list, service labels with '_' and random labels over every byte class (letters of both cases, digits, '-', '_', the bytes around the letter ranges, other punctuation, DEL), spelled all upper case / one letter / every letter at random (0x20 style), with and without trailing dot, loaded by Add or by the text loader with comments/blank lines; names derived from the rules (exact, sub-label, `not`+name, label glued on, parent, sibling) in random spelling; a sweep over every ASCII byte c placed behind and in front of upper-case letters in domain/full/keyword rules and names, together with the twin name holding c^0x20 (same name for a letter, a different one otherwise); NormalizeDomain and the scanner on fixed shapes, every ASCII byte between letters and random ASCII strings against the model; configurations of 3..12 data_provider/domain_set plugins built by the real NewDomainSet in configuration order (own expressions, a file, references to earlier sets in any order, the same set named twice, now and then a set whose own rules are only rules for the root in one of its spellings (domain:. / . / domain: / the empty expression), alone, in a file or referenced by other sets; half of them several sets derived from a common base of 1..7 members, mostly made of other sets only, the base mostly named first), every set asked for names derived from all rules right after it was built and after all others were built, the answer compared with 'some rule of the set or of a set it references, directly or through other sets, describes the name' and with the model's set construction; tables of the real hosts plugin (2..9 rules of all four types given as entries and in 1..2 files, `<rule> <ipv4> [<ipv6>]`, regular expressions written with upper-case escapes / classes / literals / flags next to lower-case-only ones, mixed-case full/domain/keyword rules) asked with A questions, the address answered mapped back to its rule; rule lists of 120..400 (thorough: up to 3000) lower-case rules, i.e. several read buffers of the text loader, loaded through LoadFromTextReader, Add, both, or a hosts file, every rule asked with its own names (exact, below it, glued to it) after the whole list was loaded, and Len() compared with the model's; expected answers from a trie-free reference whose normalisation changes the 26 upper-case letters only; non-trivial = some name matched and at least 2 rules")
 }
 
 // case12 loads one rule set into the real MixMatcher (by Add or through the text loader), asks it for every
@@ -323,36 +325,46 @@ func runC12(r *Run) {
 // full > longest domain > regexp > keyword, last Add wins among equal rules) and emits the `mix` line the
 // model driver replays.
 func (r *Run) case12(dflt string, rules []rule12, names []string, viaText bool, tag string) {
+	r.case12x(dflt, rules, names, viaText, tag, func() (func(string) (int, bool), func() int, error) {
+		mm := domain.NewMixMatcher[int]()
+		if dflt != "" {
+			mm.SetDefaultMatcher(dflt)
+		}
+		if viaText {
+			var sb strings.Builder
+			sb.WriteString("# rules\n\n")
+			vals := map[string]int{}
+			for i, rl := range rules {
+				vals[rl.text()] = rl.val
+				switch i % 3 {
+				case 0:
+					sb.WriteString(rl.text() + "\n")
+				case 1:
+					sb.WriteString("  " + rl.text() + "  # trailing comment\n")
+				default:
+					sb.WriteString("\t" + rl.text() + "\r\n\n")
+				}
+			}
+			if err := domain.LoadFromTextReader[int](mm, strings.NewReader(sb.String()), func(s string) (string, int, error) { return s, vals[s], nil }); err != nil {
+				return nil, nil, err
+			}
+		} else {
+			for _, rl := range rules {
+				if err := mm.Add(rl.text(), rl.val); err != nil {
+					return nil, nil, err
+				}
+			}
+		}
+		return mm.Match, mm.Len, nil
+	})
+}
+
+// case12x: the same for any way of loading the rules (load returns the loaded matcher's Match and Len, or
+// the loader's error): every answer is compared with the trie-free reference, and the `mix` (and `len`)
+// lines are replayed on the model.
+func (r *Run) case12x(dflt string, rules []rule12, names []string, viaText bool, tag string, load func() (func(string) (int, bool), func() int, error)) {
 	// ---- implementation
-	mm := domain.NewMixMatcher[int]()
-	if dflt != "" {
-		mm.SetDefaultMatcher(dflt)
-	}
-	var loadErr error
-	if viaText {
-		var sb strings.Builder
-		sb.WriteString("# rules\n\n")
-		vals := map[string]int{}
-		for i, rl := range rules {
-			vals[rl.text()] = rl.val
-			switch i % 3 {
-			case 0:
-				sb.WriteString(rl.text() + "\n")
-			case 1:
-				sb.WriteString("  " + rl.text() + "  # trailing comment\n")
-			default:
-				sb.WriteString("\t" + rl.text() + "\r\n\n")
-			}
-		}
-		loadErr = domain.LoadFromTextReader[int](mm, strings.NewReader(sb.String()), func(s string) (string, int, error) { return s, vals[s], nil })
-	} else {
-		for _, rl := range rules {
-			if err := mm.Add(rl.text(), rl.val); err != nil {
-				loadErr = err
-				break
-			}
-		}
-	}
+	match, length, loadErr := load()
 	// ---- model line
 	var rs, ns, tbl []string
 	compiled := map[string]*regexp.Regexp{}
@@ -395,14 +407,19 @@ func (r *Run) case12(dflt string, rules []rule12, names []string, viaText bool, 
 			}
 		}
 		if !legit {
-			r.Fail("a valid rule set was rejected", map[string]any{"scenario": tag, "rules": rs, "err": loadErr.Error()})
+			var rt []string
+			for _, rl := range rules {
+				rt = append(rt, fmt.Sprintf("%s => %d", rl.text(), rl.val))
+			}
+			r.Fail("a valid rule set was rejected", map[string]any{"scenario": tag, "rules": rt, "err": loadErr.Error()})
 		}
 		return
 	}
 	var outs []string
 	nontrivial := false
+	fails := 0
 	for _, nm := range names {
-		v, ok := mm.Match(nm)
+		v, ok := match(nm)
 		// reference answer
 		var full, dom, re, kw []rule12
 		for _, rl := range rules {
@@ -456,6 +473,10 @@ func (r *Run) case12(dflt string, rules []rule12, names []string, viaText bool, 
 			outs = append(outs, "none")
 		}
 		if (len(want) == 0) == ok || (ok && !want[v]) {
+			fails++
+			if fails > 3 && len(rules) > 60 {
+				continue // a large list: the first failures carry the list
+			}
 			var rt []string
 			for _, rl := range rules {
 				rt = append(rt, fmt.Sprintf("%s => %d", rl.text(), rl.val))
@@ -464,8 +485,24 @@ func (r *Run) case12(dflt string, rules []rule12, names []string, viaText bool, 
 			for k := range want {
 				wl = append(wl, k)
 			}
-			r.Fail(fmt.Sprintf("Match(%q) = (%d,%v) but the rules say %v", nm, v, ok, wl), map[string]any{"scenario": tag, "default_type": dflt, "via_text_loader": viaText, "rules": rt, "name": nm})
+			rep := map[string]any{"scenario": tag, "default_type": dflt, "via_text_loader": viaText, "rules": rt, "name": nm}
+			if len(rules) > 60 && fails > 1 { // the whole list is in the first failure of this case
+				var ds []string
+				for _, rl := range append(append(append(full, dom...), re...), kw...) {
+					ds = append(ds, fmt.Sprintf("%s => %d", rl.text(), rl.val))
+				}
+				rep["rules"] = fmt.Sprintf("the %d rules of the previous failure", len(rules))
+				rep["rules_describing_the_name"] = ds
+			}
+			r.Fail(fmt.Sprintf("Match(%q) = (%d,%v) but the rules say %v", nm, v, ok, wl), rep)
 		}
+	}
+	if fails > 3 {
+		r.Note(fmt.Sprintf("%s: %d of %d names answered wrongly", tag, fails, len(names)))
+	}
+	if length != nil {
+		// Len() against the model's Len (one entry per distinct rule; the shape is fact c12LenCountsValuedNodesAndRoot)
+		r.Line(fmt.Sprintf("len %s %s", d, strings.Join(rs, ";")), fmt.Sprint(length()))
 	}
 	r.Line(line, strings.Join(outs, ";"))
 	r.Eval(line, nontrivial && len(rules) > 1)
